@@ -1750,7 +1750,13 @@ class Method:
             else:
                 params.add(body)
 
-        return set(self.input.fields) - params
+        # `params` holds proto field names; `self.input.fields` is keyed by the
+        # (possibly disambiguated) Python names, so compare on the proto name.
+        return {
+            name
+            for name, field in self.input.fields.items()
+            if field.field_pb.name not in params
+        }
 
     @property
     def body_fields(self) -> Mapping[str, Field]:
